@@ -34,6 +34,7 @@ def summarize(o):
             "max_wait": o["max_wait"], "sleeps": o["sleeps"], "writes": len(o["written"]),
             "sends": sum(1 for t in o["trace"] if t[0] == "send" and t[2] != "notconn"), "want_tid": o["want_tid"], "unit": o["unit"], "fc": o["fc"],
             "expected": o["expected"], "surplus_before": o["surplus_before"], "refused": o["refused"],
+            "entry_connected": o["entry"].get("connected"),
             "delivered": [list(m) for m in o["delivered"]], "full_frame": o["full_frame"],
             "written": [w.hex() for w in o["written"]],
             "rx": [t[3].hex() for t in o["trace"] if t[0] == "recv"]}
@@ -339,7 +340,9 @@ def region_of(pid, spec, i):
         fr = L.FRAMING[kind]
         res = t["result"]
         rx = [bytes.fromhex(x) for x in t["rx"]]
-        if kind in STREAM_TCP and t["surplus_before"] > 0:
+        # unread bytes of an earlier call are waiting ON A CONNECTION THAT IS STILL OPEN at call start (after a call that
+        # ended in a short / empty read or a socket error the client has closed the socket, and what was in flight is gone)
+        if kind in STREAM_TCP and t["surplus_before"] > 0 and t.get("entry_connected", True):
             return "F-C13-tcp-unread-bytes-not-drained" if pid == "C13" else "F-C08-stale-bytes-answer-next-call"
         if pid == "C13":
             if fr == "FAscii" and res == ["raise", "ValueError"] and any(
